@@ -17,7 +17,8 @@ CASH = Cash()
 def spaces():
     """name -> (factory, in-space actions, malformed actions, denote(action)->dict sym->value, measure)"""
     out = {}
-    for cname, clist in (("nocash", [A, B]), ("cashfirst", [CASH, A, B]), ("cashlast", [A, B, CASH]), ("cashmid", [A, CASH, B])):
+    for cname, clist in (("nocash", [A, B]), ("cashfirst", [CASH, A, B]), ("cashlast", [A, B, CASH]), ("cashmid", [A, CASH, B]),
+                         ("twocash", [Cash("EUR"), A, CASH, B])):       # two cash contracts (the base currency is the last one)
         n = len(clist)
 
         def vec(a, b, clist=clist):
